@@ -332,8 +332,16 @@ void Polygon::fillet(const Array<double> radii, double tolerance) {
     old_pts.clear();
 }
 
+#ifdef GDSTK_VERIF
+void (*gdstk_verif_fracture_step)(uint64_t, uint64_t, uint64_t, uint64_t, uint64_t,
+                                  uint64_t) = NULL;
+#endif
+
 void Polygon::fracture(uint64_t max_points, double precision, Array<Polygon*>& result) const {
     if (max_points <= 4) return;
+#ifdef GDSTK_VERIF
+    uint64_t verif_iteration = 0;
+#endif
     Polygon* poly = (Polygon*)allocate_clear(sizeof(Polygon));
     poly->point_array.copy_from(point_array);
     result.append(poly);
@@ -397,6 +405,11 @@ void Polygon::fracture(uint64_t max_points, double precision, Array<Polygon*>& r
         uint64_t total = 0;
         for (uint64_t j = 0; j <= cuts.count; j++) total += chopped[j].count;
         result.ensure_slots(total);
+#ifdef GDSTK_VERIF
+        if (gdstk_verif_fracture_step)
+            gdstk_verif_fracture_step(verif_iteration++, result.count, num_points, max_points,
+                                      cuts.count, total);
+#endif
 
         for (uint64_t j = 0; j <= cuts.count; j++) {
             result.extend(chopped[j]);
